@@ -14,7 +14,7 @@ import os
 from pyvc.driver import GroundOb
 from .ground import real, _all_message_classes
 
-BOUND = "every class x every row, 1 value/row, lists of 2, depth<=3"
+BOUND = "every class x every row, 1 value/row, lists of 2 (a falsy first element where the type has one), depth<=3"
 
 
 def _value_for(avp_mod, entry, depth, grouped_mod, row):
@@ -70,7 +70,11 @@ def _fill(obj, avp_mod, grouped_mod, depth, only=None):
             v = _value_for(avp_mod, e, depth, grouped_mod, r)
             if v is None:
                 continue
-            val = [v, v] if is_list else v
+            # list attributes: a falsy but valid first element (0, "", b"") followed by the regular value
+            falsy = {int: 0, str: "", bytes: b"", float: 0.0}.get(type(v))
+            if e["type"] is avp_mod.AvpAddress:
+                falsy = None
+            val = ([v, v] if falsy is None else [falsy, v]) if is_list else v
         try:
             setattr(obj, r.attr_name, val)
         except Exception:
